@@ -17,6 +17,8 @@ pub struct DeepOut {
     pub evals: u64,
     /// for probe failures: the concrete op that fails when appended to the history so far
     pub failing_op: Option<Op>,
+    /// failures of other properties that were skipped
+    pub other: u64,
 }
 
 fn collect_capped<I: Iterator>(it: I, cap: usize) -> Vec<I::Item> {
@@ -478,6 +480,13 @@ impl<P: Payload> World<P> {
         d.evals += 1;
         d.nt.extend(so.nt.iter().copied());
         if !so.failures.is_empty() {
+            // a probe failure that does not concern the property under check is only counted
+            if let Some(t) = &cfg.target {
+                if !so.failures.iter().any(|f| f.hits(t)) {
+                    d.other += 1;
+                    return true;
+                }
+            }
             d.failures = so.failures;
             d.failing_op = Some(op);
             return false;
